@@ -10,6 +10,8 @@ Design rules
 """
 from __future__ import annotations
 
+import os
+
 import itertools
 import math
 import time
@@ -411,7 +413,7 @@ CTX: Ctx | None = None
 REPO_PATH = None   # set by the harness layer: root of the repository under test
 
 
-def _innermost_repo_frame(ex):
+def _innermost_repo_frame(ex, machinery_ok=False):
     import traceback
     tb = traceback.extract_tb(ex.__traceback__)
     if not tb or REPO_PATH is None:
@@ -424,6 +426,12 @@ def _innermost_repo_frame(ex):
     for fr in reversed(tb):
         if fr.filename.startswith(root):
             if any(x in (tb[-1].filename or "") for x in ("/verif/", "symx", "harness")):
+                # raised inside a contract stub / the facade while executing a repo statement (e.g. the check_array stub
+                # refusing an empty array): a candidate only - the replay on the real code decides whether the real
+                # library raises the same exception type at a repo frame; otherwise it is reported as UNCONFIRMED
+                if machinery_ok and isinstance(ex, (ValueError, TypeError, IndexError, KeyError, AttributeError,
+                                                    ZeroDivisionError, UnboundLocalError, RuntimeError)):
+                    return f"{fr.filename[len(root):]}:{fr.lineno} (via {os.path.basename(tb[-1].filename)}:{tb[-1].lineno})"
                 return None
             return f"{fr.filename[len(root):]}:{fr.lineno}"
     return None
@@ -488,7 +496,7 @@ class Explorer:
             except Exception as ex:
                 # an exception raised BY THE CODE UNDER TEST on inputs the harness considers valid is a candidate
                 # violation ("terminates / succeeds"); exceptions raised by the machinery itself propagate
-                where = _innermost_repo_frame(ex)
+                where = _innermost_repo_frame(ex, machinery_ok=True)
                 if where is None or REPO_PATH is None:
                     CTX = None
                     raise
